@@ -154,6 +154,21 @@ func TestC07Guard(t *testing.T) {
 		"badcol(Gadget 1 v1)":   "err=no such column: no_such_column_1",
 	}
 	script = append(script, Op{K: "badraw", M: mGadget, A: 1, V: 1}, Op{K: "badtable", M: mGadget, A: 1, V: 2}, Op{K: "badexec", M: mGadget, A: 1}, Op{K: "badcol", M: mGadget, A: 1, V: 1})
+	// the clause-carrying handle: every use works alone and what a chain adds decides its result
+	carried := []Op{}
+	for b := range carriedUses {
+		carried = append(carried, Op{K: "carried", M: mAuthor, A: 1, B: b, V: 0}, Op{K: "carried", M: mAuthor, A: 2, B: b, V: 1})
+	}
+	kc := Case{G: 1, Warm: "parse", Carry: &Carried{M: mAuthor, Orders: 5, Wheres: 2, Select: true, Joins: true, Preload: true}, Programs: [][]Op{carried}}
+	res := runSerial(&kc).results[0]
+	for i, r := range res {
+		if !strings.HasPrefix(r, "ok ra=") || strings.HasPrefix(r, "ok ra=0") {
+			t.Errorf("harness: %s on the carrying handle does not work alone: %s", carried[i], r)
+		}
+	}
+	if asc, desc := res[0], res[1]; strings.Index(asc, "Author{101") > strings.Index(asc, "Author{102") || strings.Index(desc, "Author{101") < strings.Index(desc, "Author{102") {
+		t.Errorf("harness: the ordering a chain adds to the carrying handle does not decide the result: %q / %q", asc, desc)
+	}
 	for _, cfg := range []Case{{G: 1, Warm: "cold"}, {G: 1, Warm: "query", Prepare: true, SkipTx: true}, {G: 1, Warm: "one", WarmOne: mTag, Sess: "call"}, {G: 1, Warm: "parse", Sess: "goroutine", SkipTx: true},
 		{G: 1, Warm: "cold", Cfg: []string{"queryfields", "batchsize", "fullsave", "translate", "propagate", "logger", "replacer", "plugin"}, Root: "cond"},
 		{G: 1, Warm: "cold", Cfg: []string{"noreturning", "logger"}, Root: "ctx", Prepare: true}} {
